@@ -73,6 +73,9 @@ def check_config(ctx, F, tag):
     # canonical (equal to what the bit-at-a-time route builds) only while the bits past `len` in the last word are zero
     import c05
     c05.check_tail_invariant(ctx, F, tag, prefix="C11.R4.unused-bits-zero")
+    c05.check_grow_fill(ctx, F, tag, prefix="C11.R4")     # the by-runs route through RawVector::resize(_, true)
+    import c16
+    c16.check_noop_and_flush(ctx, F, tag, prefix="C11.R3.builder")     # maximal runs: a zero-length piece does not split one; conversion flushes first
     # ---------------- R1
     n = 0
     for im in F.impls_of("std::convert::From"):
